@@ -152,7 +152,17 @@ pub fn field_variants(t: &mut Tape, plan: &XzPlan) -> Vec<(XzPlan, &'static str,
             v.push((p, "index.count", format!("index lists {} records for {} blocks", m, n)));
         }
     }
-    for bi in 0..plan.blocks.len() {
+    // files with very many blocks: first, last and two others stand for the rest
+    let nb = plan.blocks.len();
+    let bis: Vec<usize> = if nb > 8 {
+        let mut x = vec![0, nb - 1, 1 + t.below(nb as u64 - 2) as usize, 1 + t.below(nb as u64 - 2) as usize];
+        x.sort();
+        x.dedup();
+        x
+    } else {
+        (0..nb).collect()
+    };
+    for bi in bis {
         let b = &plan.blocks[bi];
         let hdr_field = field(&format!("block{}.size_byte", bi)).unwrap();
         let pay_field = field(&format!("block{}.payload", bi)).unwrap();
